@@ -76,8 +76,15 @@ for _p in PROPS:
 # (Chk17/Chk20 are explicit targets so that the case evaluator exists even when a re-proved table lemma breaks)
 prop("C17", translator=True, extra_targets=["Chk17.vo"])
 prop("C20", translator=True, extra_targets=["Chk20.vo"])
+# C08: Layout.v is re-proved about the constants / storage-site table regenerated from /repo/src
+prop("C08", translator=True, extra_targets=["ChkIso.vo"])
+prop("C10", extra_targets=["ChkQ.vo"])
 # C19: relational runs judged by Chk19; the translator refreshes the advisory scan Generated.nondet_sources
 prop("C19", translator=True, extra_targets=["Chk19.vo"])
+
+# C11 / C12: histories (code-table operations interleaved with top-level calls) judged by ChkReg over Registry.v
+prop("C11", extra_targets=["ChkReg.vo"])
+prop("C12", extra_targets=["ChkReg.vo"])
 
 
 class Lock:
@@ -302,6 +309,13 @@ def trusted_base(pr):
           "axioms per Print Assumptions: " + (", ".join(pr["axioms"]) if pr["axioms"] else "none (Closed under the global context)"),
           "correspondence check: Rust harness (input generation, observation of the implementation, Coq-term printer), check.py, the per-property projection; no extraction",
           "hand-written Gallina model files under coq/ (modelled, validated against /repo on every run; see DESIGN.md section 9)"]
+    try:
+        m = json.load(open(os.path.join(ROOT, "MANIFEST.json")))
+        for c in m.get("checks", []):
+            if c.get("property_id") == pr.get("pid") and c.get("level_note"):
+                tb.append("property-specific: " + c["level_note"])
+    except Exception:
+        pass
     return tb
 
 
@@ -430,12 +444,13 @@ def main():
         ok, out = run_translator()
         if not ok:
             print("INFRA: translator could not run on /repo/src (nothing decided):\n" + out[-3000:])
-            pr0 = dict(obligations=1, discharged=0, theorems=[], axioms=[])
+            pr0 = dict(obligations=1, discharged=0, theorems=[], axioms=[], pid=pid)
             write_evidence(pid, tier, seed, t0, pr0, None, {}, None, 0, ["translator failed: " + out[-500:]])
             return 2
 
     # 2. proofs
     pr = prove(pid, info)
+    pr["pid"] = pid
     print("[%s] proofs: %d/%d theorems closed%s (%.1fs)" % (pid, pr["discharged"], pr["obligations"],
           "" if pr["ok"] else "  ** BROKEN at %s **" % pr["failing"], pr["wall_s"]))
 
